@@ -1322,6 +1322,10 @@ class Interp:
             return a
         if is_unknown(b):
             return b
+        # an overloaded operator of a modelled external type
+        oc = norm(n.get("resolved") or n.get("callee") or "")
+        if oc and oc in self.models:
+            return self.models[oc](self, [a, b])
         if op in ("==", "!="):
             if isinstance(a, Rope):
                 a = a.text() if all(isinstance(x, str) for x in a.pieces) else a
